@@ -202,6 +202,21 @@ def check_sums(case):
         eq(cls, other @ both,
            total([other @ x for x in terms], other.dom @ dom,
                  other.cod @ cod), "tensor-distributes-right")
+    # the empty sum (zero) absorbs composition and tensor, with the types of
+    # the composite: plain diagram or one-term sum on the other side
+    eq(cls, pre >> zero, total([], pre.dom, cod), "diagram-then-zero")
+    eq(cls, total([pre], pre.dom, pre.cod) >> zero, total([], pre.dom, cod),
+       "sum-then-zero")
+    eq(cls, zero >> post, total([], dom, post.cod), "zero-then-diagram")
+    eq(cls, zero >> total([post], cod, post.cod), total([], dom, post.cod),
+       "zero-then-sum")
+    if cls not in NO_DAGGER:
+        eq(cls, zero[::-1], total([], cod, dom), "zero-dagger")
+    if cls != "cat":
+        eq(cls, other @ zero, total([], other.dom @ dom, other.cod @ cod),
+           "diagram-tensor-zero")
+        eq(cls, zero @ other, total([], dom @ other.dom, cod @ other.cod),
+           "zero-tensor-diagram")
     specs.well_typed(both >> post, "sum >> diagram")
     return dict(nt=len(terms) >= 2 and nontrivial(
         case["terms"] + [case["post"]]), labels=[cls, "terms%d" % len(terms)],
